@@ -134,8 +134,7 @@ def pySlice (x : PVal) (lo hi : Option Int) : PyM PVal :=
 def strsOf : List PVal → PyM (List Str)
   | [] => pure []
   | .str s :: r => do pure (s :: (← strsOf r))
-  | .html s :: r => do pure (s :: (← strsOf r))
-  | _ => throw .typeError
+  | _ => throw .typeError      -- `str.join` accepts `str` items only (an `HTML` item raises TypeError)
 
 /-! ### iteration, containers -/
 
